@@ -139,7 +139,7 @@ d(TOK + "TokenLocation::extract_near|api:index|%s [char,core::ops::range::Range<
   "(start, length) pairs are produced by the enumeration of the same line_chars: start + length <= len")
 d(TOK + "TokenLocation::extract_near|overflow|Add usize,usize", 2, "start + length of a word inside the line: bounded by the line length")
 d(TOK + "tokenize|api:unwrap|core::option::Option::unwrap", 3,
-  "next_char() right after peek() returned Some", {"guard_call": "^core::iter::adapters::peekable::Peekable::peek$", "edge": "some"})
+  "next_char() right after peek() returned Some (one next per peek)", {"guard_call": "^core::iter::adapters::peekable::Peekable::peek$", "edge": "some", "per_guard": 1})
 d(TOK + "tokenize|api:unwrap|core::option::Option::unwrap", 5,
   "last_mut() under a match on last() being Some", {"guard_call": "^core::slice::<impl \\[T\\]>::last$", "edge": "some"})
 d(TOK + "tokenize|api:unwrap|core::option::Option::unwrap", 1,
